@@ -456,3 +456,16 @@ Qed.
 Lemma spec_bytes_cons p rest : spec_bytes (ECons p rest) =
   match real_prim p, spec_bytes rest with inl e, _ => inl e | _, inl e => inl e | inr a, inr b => inr (a ++ b) end.
 Proof. reflexivity. Qed.
+
+(* peekInt8(offset) sees the byte that many bytes ahead *)
+Lemma peek_int8_at d p b tl : at_ d (p ++ b :: tl) -> 0 <= b < 256 -> peek_int8 (len p) d = Ok (i8 b) d.
+Proof.
+  intros (pre & suf & Hr & Ho) Hb. unfold peek_int8, byte_at, remaining. rewrite Hr, Ho, !len_app, len_cons.
+  pose proof (len_nonneg pre). pose proof (len_nonneg suf). pose proof (len_nonneg tl). pose proof (len_nonneg p).
+  replace (_ <? len p + 1) with false by (symmetry; apply Z.ltb_ge; lia).
+  replace ((0 <=? len pre + len p) && (len pre + len p <? _)) with true
+    by (symmetry; apply andb_true_iff; split; [apply Z.leb_le | apply Z.ltb_lt]; lia).
+  replace (pre ++ (p ++ b :: tl) ++ suf) with ((pre ++ p) ++ b :: (tl ++ suf)) by (now rewrite <- !app_assoc).
+  replace (Z.to_nat (len pre + len p)) with (length (pre ++ p)) by (rewrite app_length; unfold len; lia).
+  now rewrite nth_middle.
+Qed.
